@@ -204,12 +204,16 @@ func modelTimeFormat(ex *Exec, st *State, instr ssa.Instruction, args []Value) V
 	if hasYear4 {
 		// Format pads the year to at least 4 digits; outside 0..9999 the width differs: no contract
 		if !ex.decide(st, And(Le(IntLit(0), year), Le(year, IntLit(9999)))) {
-			return ex.fresh("format", SStr)
+			// a year outside 0..9999 is written with up to 12 digits and a sign
+			r := ex.fresh("format", SStr)
+			st.assume(Le(App("slen", SInt, r), IntLit(int64(layoutLen(toks)+9))))
+			return r
 		}
 	}
 	r := ex.fresh("format", SStr)
 	n := layoutLen(toks)
 	st.assume(Eq(App("slen", SInt, r), IntLit(int64(n))))
+	ex.cur.strLens[r.Key()] = int64(n)
 	pos := int64(0)
 	put := func(c *Term) {
 		st.assume(Eq(App("sat", SInt, r, IntLit(pos)), c))
